@@ -50,6 +50,7 @@ def slice(ctx: fw.Ctx) -> fw.Outcome:
         cases.append((src, gen.render(src, rng, p)))
     ic.run(ctx, out, cases, project, lambda tl: [(t["tick"], t["lanes"]) for t in tl], "note ticks and lanes",
            lambda src: any(len(g.lanes) + g.tap + g.forced >= 2 for tr in src.tracks for g in tr.groups))
+    ic.stable_under_reads(ctx, out, cases, "note events")
     return out
 
 
